@@ -7,10 +7,16 @@ use serde::{Deserialize, Serialize};
 pub enum Op {
     Set(u64),
     SetIfNotEq(u64),
+    /// on `u64` values equal hashes mean equal values: specified like `SetIfNotEq`
+    SetIfHashNotEq(u64),
     Take,
     Update(u64),
     UpdateIf(u64, bool),
     Get,
+    /// `try_write()`: on success read-modify-write through the guard (as `WriteRmw`), on `WouldBlock` nothing
+    TryWriteRmw(u64),
+    /// `try_read()`: on success the value is read through the guard, on `WouldBlock` nothing
+    TryRead,
     /// read guard held across a scheduling point; the value must not change underneath
     ReadHold,
     /// write guard: read, scheduling point, write f(read); the set must return what was read
@@ -27,8 +33,16 @@ pub enum Op {
     /// subscriber read guard (`read()`) held across a scheduling point
     SubReadHold,
     SubNextNow,
+    /// `next_ref_now()`: the value seen through the returned guard (marks it observed)
+    SubNextRefNow,
     PollOnce,
+    /// one poll of a fresh `next_ref()` future; the value is read through the guard it yields
+    PollNextRef,
+    /// `Subscriber::reset`
+    SubReset,
     SubClone,
+    /// `Subscriber::clone_reset`
+    SubCloneReset,
     SubDrop,
     /// `loop { block_on(sub.next()) }` until None; the thread first gives up its owner handles
     BlockUntilEnd,
@@ -139,7 +153,16 @@ pub fn gen_program(prop: &str, seed: u64, index: u64) -> Program {
     // mostly unique values (each read is attributable to one write); a quarter of the sets and half of
     // the conditional sets draw from {1, 2, 3} instead, so that equal values meet (set_if_not_eq
     // racing with a writer that stores the same value)
-    let writer_op = |g: &mut Gen, val: &mut dyn FnMut(&mut Gen) -> u64| match g.below(12) {
+    let writer_op = |g: &mut Gen, val: &mut dyn FnMut(&mut Gen) -> u64| match g.below(15) {
+        12 => {
+            if g.chance(1, 2) {
+                Op::SetIfHashNotEq(1 + g.below(3) as u64)
+            } else {
+                Op::SetIfHashNotEq(val(g))
+            }
+        }
+        13 => Op::TryWriteRmw(1 + g.below(5) as u64),
+        14 => Op::TryRead,
         0..=3 => {
             if g.chance(1, 4) {
                 Op::Set(1 + g.below(3) as u64)
@@ -173,10 +196,13 @@ pub fn gen_program(prop: &str, seed: u64, index: u64) -> Program {
             for _ in 0..1 + g.below(2) {
                 let mut ops = Vec::new();
                 for _ in 0..g.below(3) {
-                    ops.push(match g.below(5) {
+                    ops.push(match g.below(8) {
                         0 | 1 => Op::WaitThenNextNow,
                         2 => Op::SubNextNow,
                         3 => Op::PollOnce,
+                        4 => Op::SubNextRefNow,
+                        5 => Op::PollNextRef,
+                        6 => Op::SubReset,
                         _ => Op::SubGet,
                     });
                 }
@@ -199,14 +225,21 @@ pub fn gen_program(prop: &str, seed: u64, index: u64) -> Program {
                         0..=5 => writer_op(&mut g, &mut val),
                         6 => Op::Subscribe { reset: g.chance(1, 3) },
                         7 => Op::SubNextNow,
-                        8 => Op::PollOnce,
-                        _ => {
-                            if g.chance(1, 2) {
-                                Op::SubGet
+                        8 => {
+                            if g.chance(2, 3) {
+                                Op::PollOnce
                             } else {
-                                Op::SubReadHold
+                                Op::PollNextRef
                             }
                         }
+                        _ => match g.below(8) {
+                            0 | 1 => Op::SubGet,
+                            2 | 3 => Op::SubReadHold,
+                            4 => Op::SubNextRefNow,
+                            5 => Op::SubReset,
+                            6 => Op::SubCloneReset,
+                            _ => Op::SubClone,
+                        },
                     };
                     ops.push(o);
                 }
